@@ -1,9 +1,158 @@
-(* Properties/C13.v — placeholder until the proofs are assembled. *)
-From Coq Require Import ZArith List.
+(* Properties/C13.v — taxonomy functions agree with graph-theoretic definitions on
+   any hypernym graph.  Statements only; proofs in Proofs/TaxPaths.v, TaxReach.v,
+   TaxAssembly.v.  [hyp x] is what synset.hypernyms() returns; vocabulary
+   (chain, maximal_simple, reach, is_dist, closed, acyclic) in Proofs/TaxSpec.v. *)
+From Coq Require Import ZArith List Bool Sorted.
 Import ListNotations.
-Require Import WnV.Base.Sx WnV.Model.Taxonomy.
-Example C13_model_runs :
-  hypernym_paths (hyp_of [(1, [2; 3]); (2, [4]); (3, [4])])%Z 6 1%Z false
-  = Some [[3; 4]; [2; 4]]%Z.
-Proof. vm_compute. reflexivity. Qed.
-Print Assumptions C13_model_runs.
+Require Import WnV.Base.Sx WnV.Model.Taxonomy WnV.Proofs.TaxSpec WnV.Proofs.TaxPaths
+        WnV.Proofs.TaxReach WnV.Proofs.TaxAssembly.
+
+(* (1) hypernym_paths(x) is the set of all maximal simple hypernym chains from x,
+   for every graph (cycles, self-loops), each listed once *)
+Theorem C13_hypernym_paths_exact : forall hyp fuel x ps,
+    relation_paths hyp fuel x = Some ps ->
+    forall p, In p ps <-> (p <> [] /\ maximal_simple hyp x p).
+Proof. exact relation_paths_spec. Qed.
+Print Assumptions C13_hypernym_paths_exact.
+
+Theorem C13_hypernym_paths_nodup : forall hyp fuel x ps,
+    (forall y, NoDup (hyp y)) -> relation_paths hyp fuel x = Some ps -> NoDup ps.
+Proof. exact relation_paths_NoDup. Qed.
+Print Assumptions C13_hypernym_paths_nodup.
+
+(* (2) everything terminates with fuel |V|+2 on every finite graph, cycles included *)
+Theorem C13_paths_terminate : forall hyp V x sr self,
+    closed hyp V -> In x V ->
+    hypernym_paths_gen hyp (S (S (length V))) x sr self <> None.
+Proof. exact hypernym_paths_gen_terminates. Qed.
+Print Assumptions C13_paths_terminate.
+
+Theorem C13_pair_functions_terminate : forall hyp V a b sr,
+    closed hyp V -> In a V -> In b V ->
+    common_hypernyms hyp (S (S (length V))) a b sr <> None
+    /\ shortest_path_len hyp (S (S (length V))) a b sr <> None
+    /\ shortest_path hyp (S (S (length V))) a b sr <> None
+    /\ lowest_common_hypernyms hyp (S (S (length V))) a b sr <> None.
+Proof. exact taxonomy_functions_terminate. Qed.
+Print Assumptions C13_pair_functions_terminate.
+
+(* (3) min_depth / max_depth are the shortest / longest of those chains, 0 for a root *)
+Theorem C13_min_depth : forall hyp fuel x ps m,
+    hypernym_paths hyp fuel x false = Some ps -> min_depth hyp fuel x false = Some m ->
+    (ps = [] -> m = 0)
+    /\ (ps <> [] -> (exists p, In p ps /\ length p = m) /\ (forall p, In p ps -> m <= length p)).
+Proof. exact min_depth_spec. Qed.
+Print Assumptions C13_min_depth.
+
+Theorem C13_max_depth : forall hyp fuel x ps m,
+    hypernym_paths hyp fuel x false = Some ps -> max_depth hyp fuel x false = Some m ->
+    (ps = [] -> m = 0)
+    /\ (ps <> [] -> (exists p, In p ps /\ length p = m) /\ (forall p, In p ps -> length p <= m)).
+Proof. exact max_depth_spec. Qed.
+Print Assumptions C13_max_depth.
+
+(* (4) common_hypernyms(a, b) = intersection of the ancestor sets, each including the synset *)
+Theorem C13_common_hypernyms : forall hyp V fuel a b cs,
+    graph_ok hyp V -> In a V -> In b V ->
+    common_hypernyms hyp fuel a b false = Some cs ->
+    NoDup cs /\ (forall c, In c cs <-> (reach hyp a c /\ reach hyp b c)).
+Proof. exact common_hypernyms_spec. Qed.
+Print Assumptions C13_common_hypernyms.
+
+(* (5) shortest_path: length = min over common hypernyms c of dist(a,c) + dist(b,c);
+   wn.Error exactly when nothing is shared; same length in both directions *)
+Theorem C13_shortest_path_length : forall hyp V fuel a b r,
+    graph_ok hyp V -> In a V -> In b V ->
+    shortest_path_len hyp fuel a b false = Some r ->
+    match r with
+    | None => forall c, ~ (reach hyp a c /\ reach hyp b c)
+    | Some n => (exists c da db, is_dist hyp a c da /\ is_dist hyp b c db /\ n = da + db)
+                /\ (forall c da db, is_dist hyp a c da -> is_dist hyp b c db -> n <= da + db)
+    end.
+Proof. exact shortest_path_len_spec. Qed.
+Print Assumptions C13_shortest_path_length.
+
+Theorem C13_shortest_path_symmetric : forall hyp V fuel a b r r',
+    graph_ok hyp V -> In a V -> In b V ->
+    shortest_path_len hyp fuel a b false = Some r ->
+    shortest_path_len hyp fuel b a false = Some r' -> r = r'.
+Proof. exact shortest_path_len_sym. Qed.
+Print Assumptions C13_shortest_path_symmetric.
+
+(* (6) the returned path is genuine: consecutive synsets linked by hypernymy in either
+   direction, ending at b, empty iff a is b, of exactly that minimal length *)
+Theorem C13_shortest_path_genuine : forall hyp V fuel a b p,
+    graph_ok hyp V -> In a V -> In b V ->
+    shortest_path hyp fuel a b false = Some (Some p) ->
+    upath hyp a p /\ last p a = b /\ (p = [] <-> a = b)
+    /\ shortest_path_len hyp fuel a b false = Some (Some (length p)).
+Proof. exact shortest_path_genuine. Qed.
+Print Assumptions C13_shortest_path_genuine.
+
+(* (7) with simulate_root every pair is connected and the root is a common hypernym *)
+Theorem C13_simulated_root : forall hyp V fuel a b r,
+    graph_ok hyp V -> In a V -> In b V ->
+    shortest_path_len hyp fuel a b true = Some r -> r <> None.
+Proof. exact simulated_root_connects. Qed.
+Print Assumptions C13_simulated_root.
+
+Theorem C13_common_hypernyms_root : forall hyp V fuel a b cs,
+    graph_ok hyp V -> In a V -> In b V ->
+    common_hypernyms hyp fuel a b true = Some cs ->
+    forall c, In c cs <-> (c = root \/ (reach hyp a c /\ reach hyp b c)).
+Proof. exact common_hypernyms_root_spec. Qed.
+Print Assumptions C13_common_hypernyms_root.
+
+(* (8) lowest_common_hypernyms = the common hypernyms of greatest depth — proved for
+   acyclic graphs (_partial: on a cyclic graph "depth" is measured along the enumerated
+   chains and has no canonical graph-theoretic meaning; see DESIGN.md) *)
+Theorem C13_lowest_common_hypernyms_partial : forall hyp V fuel a b ls,
+    graph_ok hyp V -> In a V -> In b V -> acyclic hyp -> a <> b ->
+    lowest_common_hypernyms hyp fuel a b false = Some ls ->
+    forall c, In c ls <->
+      (reach hyp a c /\ reach hyp b c /\
+       forall c' d d', reach hyp a c' -> reach hyp b c' ->
+                       is_max_depth hyp c d -> is_max_depth hyp c' d' -> d' <= d).
+Proof. exact lowest_common_hypernyms_acyclic. Qed.
+Print Assumptions C13_lowest_common_hypernyms_partial.
+
+(* (9) results are sorted / independent of argument order *)
+Theorem C13_common_hypernyms_sorted : forall hyp fuel a b sr cs,
+    common_hypernyms hyp fuel a b sr = Some cs -> Sorted Z.le cs.
+Proof. exact common_hypernyms_sorted. Qed.
+Print Assumptions C13_common_hypernyms_sorted.
+
+Theorem C13_lowest_common_hypernyms_symmetric : forall hyp V fuel a b la lb,
+    graph_ok hyp V -> In a V -> In b V ->
+    lowest_common_hypernyms hyp fuel a b false = Some la ->
+    lowest_common_hypernyms hyp fuel b a false = Some lb -> la = lb.
+Proof. exact lowest_common_hypernyms_sym. Qed.
+Print Assumptions C13_lowest_common_hypernyms_symmetric.
+
+(* (10) taxonomy_depth = the longest chain over the synsets of the part of speech — proved
+   for acyclic graphs (_partial); on cyclic graphs the statement is refuted below (finding F12) *)
+Theorem C13_taxonomy_depth_partial : forall hyp V fuel S d,
+    graph_ok hyp V -> incl S V -> acyclic hyp ->
+    taxonomy_depth hyp fuel S = Some d ->
+    (forall x p, In x S -> maximal_simple hyp x p -> length p <= d)
+    /\ (d = 0 \/ exists x p, In x S /\ maximal_simple hyp x p /\ length p = d).
+Proof. exact taxonomy_depth_acyclic. Qed.
+Print Assumptions C13_taxonomy_depth_partial.
+
+(* s <-> h, s -> z -> z2, x -> h: the longest chain (x, h, s, z, z2) has 4 steps, the model of
+   today's code answers 3 when s comes first (known finding F12) *)
+Example C13_taxonomy_depth_refuted :
+  let hyp := hyp_of [(1, [2; 3]); (2, [1]); (3, [4]); (5, [2])]%Z in
+  taxonomy_depth hyp 10 [1; 2; 3; 4; 5]%Z = Some 3
+  /\ hypernym_paths hyp 10 5%Z false = Some [[2; 1; 3; 4]]%Z.
+Proof. vm_compute. split; reflexivity. Qed.
+Print Assumptions C13_taxonomy_depth_refuted.
+
+(* non-vacuity: a diamond with two roots *)
+Example C13_nonvacuous :
+  let hyp := hyp_of [(1, [2; 3]); (2, [4]); (3, [4; 5])]%Z in
+  hypernym_paths hyp 7 1%Z false = Some [[3; 4]; [3; 5]; [2; 4]]%Z
+  /\ shortest_path hyp 7 2%Z 3%Z false = Some (Some [4; 3]%Z)
+  /\ lowest_common_hypernyms hyp 7 2%Z 3%Z false = Some [4]%Z.
+Proof. vm_compute. repeat split; reflexivity. Qed.
+Print Assumptions C13_nonvacuous.
